@@ -252,3 +252,41 @@ def prime_related(case, keys: Keys, sigs, Q):
                 sub[keys.pub[k]] = sigs[keys.pub[k]]
         if sub:
             lib.call(auth.verify_signable, {"signatures": dict(sub), "signed": Q}, list(sub), 1, gpg=(fr == "gpg"))
+
+
+def share_equal_parts(dst, src, r: random.Random = None, p=1.0):
+    """Aliasing: every list / dict inside dst that is EQUAL (same canonical bytes) to one inside src is replaced by that very object, as
+    happens when one document is built from another by copy-and-edit.  Values do not change, so no verdict may.  Returns dst (or src itself
+    when the whole of dst equals a part of src)."""
+    pool = {}
+
+    def collect(x):
+        if isinstance(x, (dict, list)):
+            try:
+                pool.setdefault((type(x).__name__, twin_canon(x)), x)
+            except (TypeError, ValueError, RecursionError):
+                pass
+            for c in (x.values() if isinstance(x, dict) else x):
+                collect(c)
+    collect(src)
+
+    def key(x):
+        try:
+            return (type(x).__name__, twin_canon(x))
+        except (TypeError, ValueError, RecursionError):
+            return None
+
+    def walk(x):
+        if not isinstance(x, (dict, list)):
+            return x
+        k = key(x)
+        if k in pool and (r is None or r.random() < p):
+            return pool[k]
+        if isinstance(x, dict):
+            for kk in list(x):
+                x[kk] = walk(x[kk])
+        else:
+            for i in range(len(x)):
+                x[i] = walk(x[i])
+        return x
+    return walk(dst)
